@@ -1679,8 +1679,9 @@ Qed.
 (* ------------------------------------------------------------------------------------------ *)
 (** ** C04: a loaded font is a valid font *)
 
-Section Closed.
-Hypothesis CL : sig_closed0 S.
+Section ClosedAt.
+Variable t : tree.
+Hypothesis CA : sig_closed_at S t.
 
 Lemma bare_guides_ok : forall gs : list (T_gbody S * option str),
   (forall g, In g gs -> forall id, snd g = Some id -> wf_key S id) ->
@@ -1746,11 +1747,11 @@ Proof.
   destruct (str_eqb k k') eqn:E; [apply list_eqb_N_eq in E; inversion H; subst; auto|auto].
 Qed.
 
-Lemma load_layer_props : forall (t : tree) e (l : lay),
+Lemma load_layer_props : forall e (l : lay),
   load_layer S t e = Ok l ->
   l_name l = fst e /\ l_dir l = snd e /\ (Forall (glyph_entry_ok S) (l_glyphs l) -> layer_ok S l).
 Proof.
-  intros t e l H. unfold load_layer in H.
+  intros e l H. unfold load_layer in H.
   destruct (alookup (snd e) (t_dirs S t)) as [d|] eqn:Ed; [|discriminate].
   destruct (ld_contents S d) as [cc|] eqn:Ec; [|discriminate].
   destruct (dec (P_contents S) cc) as [cl|] eqn:Ecl; [|discriminate].
@@ -1764,14 +1765,14 @@ Proof.
   unfold layer_ok. simpl.
   assert (Hli : wf_dict S match a0 with Some (_, Some l0) => l0 | _ => d_empty S end /\
                 forall k, match a0 with Some v => fst v | None => None end = Some k -> wf_color S k).
-  { unfold load_opt in E0. destruct (ld_info S d) as [lic|].
+  { unfold load_opt in E0. destruct (ld_info S d) as [lic|] eqn:Eli.
     - destruct (dec (P_li S) lic) as [[c ol]|] eqn:El; [|discriminate]. inversion E0; subst a0.
-      apply (cl_li S CL) in El. apply (li_wf S OK) in El. destruct El as [H1 H2]. simpl. split.
+      apply (at_li S t CA _ _ _ _ Ed Eli) in El. apply (li_wf S OK) in El. destruct El as [H1 H2]. simpl. split.
       + destruct ol as [x|]; [apply H2; reflexivity|apply wf_dict_empty].
       + exact H1.
     - inversion E0; subst a0. split; [apply wf_dict_empty|discriminate]. }
   destruct Hli as [Hl1 Hl2]. split; [exact Hl1|]. split; [exact Hl2|].
-  split. { unfold contents_of. simpl. rewrite Hfst. apply (cl_contents S CL _ _ Ecl). }
+  split. { unfold contents_of. simpl. rewrite Hfst. apply (at_contents S t CA _ _ Ecl). }
   split.
   { replace (map (fun e0 : str * str * T_glyph S => lower S (snd (fst e0))) a)
       with (map (fun e0 : str * str => lower S (snd e0)) (map fst a)) by (rewrite map_map; reflexivity).
@@ -1779,10 +1780,10 @@ Proof.
   exact HGL.
 Qed.
 
-Lemma load_layers_props : forall (t : tree) ls,
+Lemma load_layers_props : forall ls,
   load_layers S t 3 = Ok ls -> Forall (fun l : lay => Forall (glyph_entry_ok S) (l_glyphs l)) ls -> layers_ok S ls.
 Proof.
-  intros t ls H HGL. unfold load_layers in H.
+  intros ls H HGL. unfold load_layers in H.
   destruct (t_lcontents S t) as [lcc|] eqn:E1; [|discriminate].
   destruct (dec (P_lc S) lcc) as [lc|] eqn:E2; [|discriminate]. cbn [bind] in H.
   destruct (lc_precheck S [] [] lc) eqn:Epre; [discriminate|].
@@ -1792,7 +1793,7 @@ Proof.
   apply mapM_Forall2 in Em.
   assert (Hall : Forall2 (fun e (l : lay) => l_name l = fst e /\ l_dir l = snd e /\
                                               (Forall (glyph_entry_ok S) (l_glyphs l) -> layer_ok S l)) lc ls0).
-  { eapply Forall2_impl_in; [|exact Em]. intros e l _ _ He. cbv beta in He. apply (load_layer_props t e l He). }
+  { eapply Forall2_impl_in; [|exact Em]. intros e l _ _ He. cbv beta in He. apply (load_layer_props e l He). }
   assert (Hdirs : map l_dir ls0 = map snd lc).
   { apply Forall2_map_fst_eq. eapply Forall2_impl_in; [|exact Hall]. intros a b _ _ (_ & H & _). exact H. }
   assert (Hlcof : lc_of S ls0 = lc).
@@ -1818,28 +1819,28 @@ Proof.
   - apply Forall_forall. intros x Hx. rewrite <- Hdg. intros E. apply (Hothers x Hx). rewrite E. reflexivity.
   - exact Hok0.
   - apply (lc_wf S OK). unfold lc_of. rewrite Forall_map. apply Forall_forall. intros x Hx.
-    apply (cl_lc S CL) in E2. apply (lc_wf S OK) in E2. rewrite <- Hlcof in E2. unfold lc_of in E2.
+    apply (at_lc S t CA) in E2. apply (lc_wf S OK) in E2. rewrite <- Hlcof in E2. unfold lc_of in E2.
     rewrite Forall_map in E2. rewrite Forall_forall in E2. apply E2. apply Hin. exact Hx.
   - apply Forall_forall. intros x Hx. apply Hin in Hx. apply Forall2_flip in Hall.
     destruct (Forall2_in_l _ _ _ _ Hall Hx) as [e [He (A & B & _)]]. rewrite Forall_forall in Hres.
     rewrite A, B. apply (Hres e He).
 Qed.
 
-Theorem load_yields_valid0 : forall (t : tree) (f : font) mc m,
+Theorem load_yields_valid_at : forall (f : font) mc m,
   load S t = Ok f -> t_meta S t = Some mc -> dec (P_meta S) mc = Some m -> m_version m = 3 ->
   Forall (fun l : lay => Forall (glyph_entry_ok S) (l_glyphs l)) (f_layers S f) ->
   font_valid S f.
 Proof.
-  intros t f mc m H Hm1 Hm2 Hv HGL.
+  intros f mc m H Hm1 Hm2 Hv HGL.
   destruct (load_elim t f H) as (mc' & m' & olib & il & og & ok & ls & E1 & E2 & E3 & E4 & E5 & E6 & E7 & E8 &
                                  F1 & F2 & F3 & F4 & F5).
   rewrite Hm1 in E1. inversion E1; subst mc'. rewrite Hm2 in E2. inversion E2; subst m'.
   destruct (F5 Hv) as (G1 & G2 & G3 & G4 & G5). rewrite Hv in *.
   (* the lib as read *)
   assert (Hwl0 : wf_dict S (lib0_of olib)).
-  { unfold load_opt in E3. destruct (t_lib S t) as [c|].
+  { unfold load_opt in E3. destruct (t_lib S t) as [c|] eqn:Etl.
     - destruct (dec (P_lib S) c) as [d|] eqn:Ed; [|discriminate]. inversion E3; subst olib. simpl.
-      apply (lib_wf S OK). apply (cl_lib S CL _ _ Ed).
+      apply (lib_wf S OK). apply (at_lib S t CA _ _ Etl Ed).
     - inversion E3; subst olib. apply wf_dict_empty. }
   (* font info and lib *)
   assert (HI : info_ok S (fst il) = true /\ wf (P_info S) (stripped S (fst il)) /\
@@ -1850,8 +1851,8 @@ Proof.
       destruct (info_ok S _) eqn:Eok; [|discriminate].
       destruct (load_object_libs S (snd si) (lib0_of olib)) as [r| |] eqn:Er; simpl in E4; try discriminate.
       inversion E4; subst il. simpl.
-      pose proof (cl_info S CL _ _ Es) as Hwsi.
-      destruct (load_object_libs_props _ _ _ Er Hwl0 (info_ids_wf S CL c si Es)) as (P1 & P2 & P3 & P4).
+      pose proof (at_info S t CA _ _ Es) as Hwsi.
+      destruct (load_object_libs_props _ _ _ Er Hwl0 (at_info_ids_wf S t CA c si Es)) as (P1 & P2 & P3 & P4).
       assert (Hstr : stripped S {| i_rest := fst si; i_guides := fst r |} = si).
       { unfold stripped. simpl. rewrite P1. destruct si; reflexivity. }
       split. { rewrite <- Eok. apply (info_ok_stripped S OK). rewrite Hstr, stripped_bare. apply (peq_refl _ (ok_info S OK)). }
@@ -1862,34 +1863,61 @@ Proof.
       split; [constructor|exact Hwl0]. }
   destruct HI as (I1 & I2 & I3 & I4).
   unfold font_valid. rewrite F1, G1, G2, G3, G4, F2.
-  split; [reflexivity|]. split. { rewrite meta_to_write_v3 by reflexivity. apply (meta_wf_norad S CL mc m Hm2). }
+  split; [reflexivity|]. split. { rewrite meta_to_write_v3 by reflexivity. apply (at_meta_wf_norad S t CA mc m Hm2). }
   split; [exact I1|]. split; [exact I2|]. split; [exact I3|].
-  split; [apply (info_ok_nodup S CL); exact I1|]. split; [apply wf_dict_remove_key; exact I4|].
+  split; [apply (at_info_ok_nodup S t CA); exact I1|]. split; [apply wf_dict_remove_key; exact I4|].
   split; [apply get_remove_key|].
   split.
   { destruct og as [g|]; simpl; [apply E6; reflexivity|apply (groups_dflt_wf S OK)]. }
   split.
   { unfold load_opt in E5. destruct (t_groups S t) as [c|].
     - destruct (dec (P_groups S) c) as [g|] eqn:Eg; [|discriminate]. inversion E5; subst og. simpl.
-      apply (cl_groups S CL _ _ Eg).
+      apply (at_groups S t CA _ _ Eg).
     - inversion E5; subst og. simpl. apply (groups_dflt_wf S OK). }
   split.
-  { unfold load_opt in E7. destruct (t_kerning S t) as [c|].
+  { unfold load_opt in E7. destruct (t_kerning S t) as [c|] eqn:Etk.
     - destruct (dec (P_kerning S) c) as [k|] eqn:Ek; [|discriminate]. inversion E7; subst ok. simpl.
-      apply (cl_kerning S CL _ _ Ek).
+      apply (at_kerning S t CA _ _ Etk Ek).
     - inversion E7; subst ok. simpl. apply (kerning_dflt_wf S OK). }
   eapply load_layers_props; eauto. rewrite <- F2. exact HGL.
 Qed.
+
+(** the fixed point for every loaded font whose glyphs are in the glif writer's domain *)
+Theorem fixed_point_at : forall o (f : font) mc m,
+  load S t = Ok f -> t_meta S t = Some mc -> dec (P_meta S) mc = Some m -> m_version m = 3 ->
+  Forall (fun l : lay => Forall (glyph_entry_ok S) (l_glyphs l)) (f_layers S f) ->
+  exists t', save S o f = Ok t' /\ exists f', load S t' = Ok f' /\ font_equiv S f f'.
+Proof.
+  intros o f mc m H Hm1 Hm2 Hv HGL.
+  destruct (save_load_roundtrip o f (load_yields_valid_at f mc m H Hm1 Hm2 Hv HGL)) as (t' & H1 & _ & H2). eauto.
+Qed.
+
+End ClosedAt.
+
+(** closed readers are closed at every tree *)
+Section Closed.
+Hypothesis CL : sig_closed0 S.
+
+Lemma closed0_at : forall t : tree, sig_closed_at S t.
+Proof.
+  intros t. destruct CL. constructor; try assumption.
+  - intros c x _ Hd. eauto.
+  - intros c x _ Hd. eauto.
+  - intros dn d c x _ _ Hd. eauto.
+Qed.
+
+Theorem load_yields_valid0 : forall (t : tree) (f : font) mc m,
+  load S t = Ok f -> t_meta S t = Some mc -> dec (P_meta S) mc = Some m -> m_version m = 3 ->
+  Forall (fun l : lay => Forall (glyph_entry_ok S) (l_glyphs l)) (f_layers S f) ->
+  font_valid S f.
+Proof. intros t. exact (load_yields_valid_at t (closed0_at t)). Qed.
 
 (** the fixed point for every loaded font whose glyphs are in the glif writer's domain *)
 Theorem fixed_point0 : forall o (t : tree) (f : font) mc m,
   load S t = Ok f -> t_meta S t = Some mc -> dec (P_meta S) mc = Some m -> m_version m = 3 ->
   Forall (fun l : lay => Forall (glyph_entry_ok S) (l_glyphs l)) (f_layers S f) ->
   exists t', save S o f = Ok t' /\ exists f', load S t' = Ok f' /\ font_equiv S f f'.
-Proof.
-  intros o t f mc m H Hm1 Hm2 Hv HGL.
-  destruct (save_load_roundtrip o f (load_yields_valid0 t f mc m H Hm1 Hm2 Hv HGL)) as (t' & H1 & _ & H2). eauto.
-Qed.
+Proof. intros o t. exact (fixed_point_at t (closed0_at t) o). Qed.
 
 End Closed.
 
